@@ -8,7 +8,7 @@ a reference is stated with a prophetic trait-level relation `fin_adv(n)` ("whate
 mutably borrows ends up advanced by exactly n bytes"): `&mut T` defines it through `final`, Take
 passes it to its inner buffer, owning buffers have nothing to say.  The contract of
 `BytesMut::{with_capacity, put, freeze}` is ASSUMED here (opaque type); its content part is proved
-on the real type by Kani (kx_bytesmut_target*, kx_liar_put_sources, kx_mvec_freeze*, bounded), its
+by V unit bufmut_targets (the verbatim loop, all lengths) over Kani's extend_from_slice contract, its
 "drains the source exactly" part by V unit bufmut_default for the same loop shape.
 
 The blanket impl is in scope here (the bodies need `&mut T: Buf`), so the trait's own default
@@ -18,7 +18,7 @@ import buf_fwd
 
 U = Unit("buf_copy", props=["C09", "C12"])
 U.assumptions = [
-    "assumed contract (unit buf_copy): BytesMut::with_capacity(n)@ == [], BytesMut::put(src) appends src.seq() and drains src exactly (src.fin_adv(|src.seq()|)), freeze keeps the contents - Kani proves the content part on the real type (bounded), unit bufmut_default the loop shape",
+    "assumed contract (unit buf_copy): BytesMut::with_capacity(n)@ == [], BytesMut::put(src) appends src.seq() and drains src exactly (src.fin_adv(|src.seq()|)), freeze keeps the contents - the content part of put is proved in unit bufmut_targets, with_capacity/freeze by Kani (kx_m_constructors, kx_mvec_freeze*, kx_marc_freeze); the draining clause is assumed (same loop: every advance is by the chunk just copied)",
     "imported contracts of Buf's cursor methods for Take/Chain/&mut T in unit buf_copy: proved in units buf_core and buf_fwd",
 ]
 
